@@ -126,3 +126,476 @@ Proof.
         intros _. eapply H; eauto.
       * intros f' l Hin E. eapply H; eauto.
 Qed.
+
+Lemma max_limit_forallb n fs :
+  forallb (fun f => match f_limit f with None => true | Some l => l <=? n end) fs = true <->
+  forall f l, In f fs -> f_limit f = Some l -> l <= n.
+Proof.
+  rewrite forallb_forall. split.
+  - intros H f l Hin E. specialize (H f Hin). rewrite E in H. now apply Z.leb_le.
+  - intros H f Hin. destruct (f_limit f) as [l|] eqn:E; [|reflexivity]. apply Z.leb_le. eauto.
+Qed.
+
+Ltac inv_eqs :=
+  repeat match goal with
+  | E : Some _ = Some _ |- _ => inversion E; subst; clear E
+  | E : CEvent _ = CEvent _ |- _ => inversion E; subst; clear E
+  | E : None = Some _ |- _ => discriminate E
+  | E : CEvent _ = _ |- _ => discriminate E
+  | E : CReq _ _ = _ |- _ => discriminate E
+  | E : CClose _ = _ |- _ => discriminate E
+  | E : CAuth _ = _ |- _ => discriminate E
+  | E : CCount _ _ = _ |- _ => discriminate E
+  end.
+
+Lemma respectsb_spec k now m : respectsb k now m = true <-> respects k now m.
+Proof.
+  destruct k, m; cbn [respectsb respects filters_of];
+    try (split; [intros _; intros; inv_eqs; exact I | reflexivity]);
+    try (split; [intros _; intros; inv_eqs | reflexivity]);
+    try rewrite max_limit_forallb;
+    rewrite ?andb_true_iff, ?Z.leb_le, ?negb_true_iff;
+    (split; [intros H; intros; inv_eqs; eauto | intros H; eauto]).
+Qed.
+
+Lemma guard_as_leb (g : bool) a b : (g = false <-> a <= b) -> g = negb (a <=? b).
+Proof.
+  intro H. destruct (a <=? b) eqn:E; simpl.
+  - apply H. now apply Z.leb_le.
+  - destruct g; [reflexivity|]. apply Z.leb_gt in E. assert (a <= b) by (now apply H). lia.
+Qed.
+
+Lemma bool_eq_by_iff (x y : bool) (P : Prop) : (x = false <-> P) -> (y = true <-> P) -> x = negb y.
+Proof.
+  destruct x, y; simpl; intros [A B] [C D]; try reflexivity.
+  - specialize (B (C eq_refl)). discriminate.
+  - specialize (D (A eq_refl)). discriminate.
+Qed.
+
+Lemma e_max_filters_req a b : g_mw_max_filters_req a b = negb (a <=? b).
+Proof. apply guard_as_leb, g_mw_max_filters_req_ok. Qed.
+Lemma e_max_filters_count a b : g_mw_max_filters_count a b = negb (a <=? b).
+Proof. apply guard_as_leb, g_mw_max_filters_count_ok. Qed.
+Lemma e_max_subid_req a b : g_mw_max_subid_req a b = negb (a <=? b).
+Proof. apply guard_as_leb, g_mw_max_subid_req_ok. Qed.
+Lemma e_max_subid_count a b : g_mw_max_subid_count a b = negb (a <=? b).
+Proof. apply guard_as_leb, g_mw_max_subid_count_ok. Qed.
+Lemma e_max_event_tags a b : g_mw_max_event_tags a b = negb (a <=? b).
+Proof. apply guard_as_leb, g_mw_max_event_tags_ok. Qed.
+Lemma e_max_content a b : g_mw_max_content a b = negb (a <=? b).
+Proof. apply guard_as_leb, g_mw_max_content_ok. Qed.
+Lemma e_created_lower now ts l : g_mw_created_lower now ts l = negb (now - l <=? ts).
+Proof. apply guard_as_leb, g_mw_created_lower_ok. Qed.
+Lemma e_created_upper now ts u : g_mw_created_upper now ts u = negb (ts <=? now + u).
+Proof. apply guard_as_leb, g_mw_created_upper_ok. Qed.
+Lemma e_created_window_old now ts from to : g_mw_created_window_old now ts from to = negb (now + from <=? ts).
+Proof. apply guard_as_leb, g_mw_created_window_old_ok. Qed.
+Lemma e_created_window_far now ts from to : g_mw_created_window_far now ts from to = negb (ts <=? now + to).
+Proof. apply guard_as_leb, g_mw_created_window_far_ok. Qed.
+Lemma e_allow b : g_mw_allow_reject b = negb b.
+Proof. destruct b; [apply g_mw_allow_reject_ok; reflexivity|]. destruct (g_mw_allow_reject false) eqn:E; [reflexivity|]. apply g_mw_allow_reject_ok in E. discriminate. Qed.
+Lemma e_deny b : g_mw_deny_reject b = b.
+Proof. destruct b; [|apply g_mw_deny_reject_ok; reflexivity]. destruct (g_mw_deny_reject true) eqn:E; [reflexivity|]. apply g_mw_deny_reject_ok in E. discriminate. Qed.
+Lemma e_max_limit_req n fs :
+  existsb (fun f => g_mw_max_limit_req (has_some (f_limit f)) (limit_or0 f) n) fs =
+  negb (forallb (fun f => match f_limit f with None => true | Some l => l <=? n end) fs).
+Proof.
+  eapply bool_eq_by_iff; [apply max_limit_existsb; intros; apply g_mw_max_limit_req_ok | apply max_limit_forallb].
+Qed.
+Lemma e_max_limit_count n fs :
+  existsb (fun f => g_mw_max_limit_count (has_some (f_limit f)) (limit_or0 f) n) fs =
+  negb (forallb (fun f => match f_limit f with None => true | Some l => l <=? n end) fs).
+Proof.
+  eapply bool_eq_by_iff; [apply max_limit_existsb; intros; apply g_mw_max_limit_count_ok | apply max_limit_forallb].
+Qed.
+
+(** the decision of a stateless middleware: forwards the message itself when
+    the limit is respected, otherwise answers with the rejection for its type *)
+Lemma mw_client_cases k now m :
+  (mw_client k now m = Forward m /\ respectsb k now m = true) \/
+  (exists r, mw_client k now m = Reject r /\ respectsb k now m = false /\ reject_shape m r).
+Proof.
+  destruct k, m; cbn [mw_client respectsb reject_shape]; try (left; split; reflexivity);
+    rewrite ?e_max_filters_req, ?e_max_filters_count, ?e_max_subid_req, ?e_max_subid_count,
+            ?e_max_event_tags, ?e_max_content, ?e_created_lower, ?e_created_upper,
+            ?e_created_window_old, ?e_created_window_far, ?e_allow, ?e_deny,
+            ?e_max_limit_req, ?e_max_limit_count;
+    repeat match goal with
+           | |- context [negb ?b] => destruct b; cbn [negb andb]
+           end;
+    try (left; split; reflexivity);
+    right; eexists; (split; [reflexivity|]); (split; [reflexivity|]); do 2 eexists; reflexivity.
+Qed.
+
+(** forwarded unchanged exactly when the limit is respected *)
+Theorem mw_iff k now m :
+  stateless k = true -> (mw_client k now m = Forward m <-> respects k now m).
+Proof.
+  intros _. rewrite <- respectsb_spec.
+  destruct (mw_client_cases k now m) as [[E R]|[r [E [R _]]]]; rewrite E, R; split; congruence.
+Qed.
+
+Theorem mw_forward_unchanged k now m m' : mw_client k now m = Forward m' -> m' = m.
+Proof.
+  destruct (mw_client_cases k now m) as [[E R]|[r [E _]]]; rewrite E; congruence.
+Qed.
+
+(** otherwise the message is answered with the rejection for its type, and
+    nothing is forwarded (the result is the reply alone) *)
+Theorem mw_reject_iff k now m :
+  stateless k = true -> ((exists r, mw_client k now m = Reject r) <-> ~ respects k now m).
+Proof.
+  intros _. rewrite <- respectsb_spec.
+  destruct (mw_client_cases k now m) as [[E R]|[r [E [R _]]]]; rewrite E, R; split.
+  - intros [r H]; discriminate.
+  - intro H; exfalso; now apply H.
+  - intros _; discriminate.
+  - intros _; now exists r.
+Qed.
+
+Theorem mw_reject_shape k now m r : mw_client k now m = Reject r -> reject_shape m r.
+Proof.
+  destruct (mw_client_cases k now m) as [[E R]|[r' [E [_ S]]]]; rewrite E; congruence.
+Qed.
+
+Lemma reject_shapeb_spec m r : reject_shapeb m r = true <-> reject_shape m r.
+Proof.
+  destruct m, r; simpl; try (split; [discriminate | intros [p [t H]]; discriminate]);
+    try (split; [discriminate | intros []]).
+  - destruct accepted; rewrite ?str_eqb_eq; split.
+    + discriminate.
+    + intros [p [t H]]; inversion H.
+    + intros ->. eauto.
+    + intros [p [t H]]; inversion H; reflexivity.
+  - rewrite str_eqb_eq. split; [intros ->; eauto | intros [p [t H]]; inversion H; reflexivity].
+  - rewrite str_eqb_eq. split; [intros ->; eauto | intros [p [t H]]; inversion H; reflexivity].
+Qed.
+
+(* ------------------------------------------------------------------ *)
+(** ** one step of any middleware, stateful ones included *)
+
+Lemma step_cases k now st m :
+  (exists st', mw_client_step k now st m = (st', Forward m)) \/
+  (exists st' r, mw_client_step k now st m = (st', Reject r) /\ reject_shape m r).
+Proof.
+  destruct k;
+    try (unfold mw_client_step;
+         match goal with |- context [mw_client ?k now m] =>
+           destruct (mw_client_cases k now m) as [[E _]|[r [E [_ S]]]]; rewrite E; eauto end).
+  - (* quota *)
+    destruct m; cbn [mw_client_step quota_client]; eauto.
+    destruct (g_quota_over _ _); [right | left]; eauto.
+    do 2 eexists. split; [reflexivity|]. simpl. eauto.
+  - (* receive-side unique *)
+    destruct m; cbn [mw_client_step recv_unique_client]; eauto.
+    destruct (lru_get _ _ _) as [w1 found]. destruct (g_recv_unique_hit found); [right | left]; eauto.
+    do 2 eexists. split; [reflexivity|]. simpl. eauto.
+Qed.
+
+(** messages a middleware is not about pass, and its state is untouched *)
+Theorem mw_other_pass k now st m :
+  concerns k m = false -> mw_client_step k now st m = (st, Forward m).
+Proof. destruct k, m; simpl; intro H; try discriminate; reflexivity. Qed.
+
+(** every middleware but the send-side unique filter is the identity on
+    server messages; that one is the identity on everything but EVENT *)
+Theorem mw_server_identity k st s :
+  (forall n, k <> SendUnique n) \/ smsg_is_event s = false -> mw_server_step k st s = (st, Some s).
+Proof.
+  intros [H|H].
+  - destruct k; try reflexivity. exfalso. eapply H. reflexivity.
+  - destruct k; try reflexivity. destruct s; try reflexivity. discriminate.
+Qed.
+
+Lemma reject_shape_not_event m r : reject_shape m r -> smsg_is_event r = false.
+Proof. destruct m; simpl; try tauto; intros [p [t ->]]; reflexivity. Qed.
+
+Lemma reply_passes k st r : smsg_is_event r = false -> layer_server_many k st [r] = (st, [r]).
+Proof.
+  intro H. cbn [layer_server_many]. rewrite (mw_server_identity k st r) by (now right). reflexivity.
+Qed.
+
+(* ------------------------------------------------------------------ *)
+(** ** stacks *)
+
+(** layer [l] forwards [m]; the layer after the message reached it *)
+Definition fw (now : Z) (m : cmsg) (l : layer) : Prop :=
+  snd (mw_client_step (fst l) now (snd l) m) = Forward m.
+Definition adv (now : Z) (m : cmsg) (l : layer) : layer :=
+  (fst l, fst (mw_client_step (fst l) now (snd l) m)).
+
+(** A stack forwards a message iff every member, in its current state,
+    would; it then forwards the message itself and nothing reaches the
+    client.  Otherwise the reply is that of the outermost member that does
+    not forward, members inside it never see the message, and nothing is
+    forwarded. *)
+Theorem stack_client_spec now ls m :
+  match stack_client now ls m with
+  | (ls', Some m', rs) =>
+      m' = m /\ rs = [] /\ Forall (fw now m) ls /\ ls' = List.map (adv now m) ls
+  | (ls', None, rs) =>
+      exists pre l post r,
+        ls = pre ++ l :: post /\ Forall (fw now m) pre /\
+        snd (mw_client_step (fst l) now (snd l) m) = Reject r /\ reject_shape m r /\
+        rs = [r] /\ ls' = List.map (adv now m) pre ++ adv now m l :: post
+  end.
+Proof.
+  induction ls as [|[k st] inner IH]; cbn [stack_client].
+  - repeat split; constructor.
+  - assert (A : forall st1 c, mw_client_step k now st m = (st1, c) -> adv now m (k, st) = (k, st1)).
+    { intros st1 c E. unfold adv. cbn [fst snd]. now rewrite E. }
+    destruct (step_cases k now st m) as [[st1 E]|[st1 [r [E S]]]]; rewrite E.
+    + assert (Fk : fw now m (k, st)) by (unfold fw; cbn [fst snd]; now rewrite E).
+      destruct (stack_client now inner m) as [[inner' o] rs]. destruct o as [m'|].
+      * destruct IH as [-> [-> [F ->]]]. cbn [layer_server_many List.map].
+        rewrite (A _ _ E). repeat split. now constructor.
+      * destruct IH as [pre [l [post [r [-> [F [R [S [-> ->]]]]]]]]].
+        rewrite reply_passes by (eapply reject_shape_not_event; eauto).
+        exists ((k, st) :: pre), l, post, r. cbn [List.map app]. rewrite (A _ _ E).
+        repeat split; auto.
+    + exists [], (k, st), inner, r. cbn [List.map app fst snd]. rewrite (A _ _ E), E.
+      repeat split; auto.
+Qed.
+
+Lemma stack_init_cons k ks : stack_init (k :: ks) = (k, mw_init k) :: stack_init ks.
+Proof. reflexivity. Qed.
+
+Theorem stack_server_stateless ks s :
+  Forall (fun k => stateless k = true) ks -> stack_server (stack_init ks) s = (stack_init ks, Some s).
+Proof.
+  induction 1 as [|k ks Hk _ IH]; [reflexivity|].
+  rewrite stack_init_cons. cbn [stack_server]. rewrite IH.
+  rewrite mw_server_identity; [reflexivity|]. left. intros n ->. discriminate.
+Qed.
+
+(** the reply of the outermost member whose limit is not respected *)
+Fixpoint first_reject (ks : list mwk) (now : Z) (m : cmsg) : option smsg :=
+  match ks with
+  | [] => None
+  | k :: r => match mw_client k now m with Reject x => Some x | Forward _ => first_reject r now m end
+  end.
+
+Definition all_respectb (ks : list mwk) (now : Z) (m : cmsg) : bool :=
+  forallb (fun k => respectsb k now m) ks.
+
+Lemma stateless_step k now st m : stateless k = true -> mw_client_step k now st m = (st, mw_client k now m).
+Proof. destruct k; try discriminate; reflexivity. Qed.
+
+Theorem stack_stateless_step now ks m :
+  Forall (fun k => stateless k = true) ks ->
+  stack_client now (stack_init ks) m =
+  (stack_init ks, (if all_respectb ks now m then Some m else None), opt_list (first_reject ks now m)).
+Proof.
+  induction 1 as [|k ks Hk _ IH]; [reflexivity|].
+  rewrite stack_init_cons. cbn [stack_client all_respectb forallb first_reject].
+  fold (all_respectb ks now m).
+  rewrite (stateless_step _ _ _ _ Hk).
+  destruct (mw_client_cases k now m) as [[E R]|[r [E [R S]]]]; rewrite E, R; cbn [andb].
+  - rewrite IH. destruct (first_reject ks now m) as [r|] eqn:F; cbn [opt_list layer_server_many]; [|reflexivity].
+    assert (S : reject_shape m r).
+    { clear - F. induction ks as [|k' ks IH]; [discriminate|]. simpl in F.
+      destruct (mw_client k' now m) eqn:E; [now apply IH | inversion F; subst; eapply mw_reject_shape; eauto]. }
+    rewrite (mw_server_identity k _ r) by (right; eapply reject_shape_not_event; eauto). reflexivity.
+  - reflexivity.
+Qed.
+
+Lemma first_reject_none ks now m : first_reject ks now m = None <-> all_respectb ks now m = true.
+Proof.
+  induction ks as [|k ks IH]; simpl; [tauto|].
+  destruct (mw_client_cases k now m) as [[E R]|[r [E [R _]]]]; rewrite E, R; simpl; [exact IH | split; discriminate].
+Qed.
+
+Lemma first_reject_some ks now m r :
+  first_reject ks now m = Some r ->
+  exists pre k post, ks = pre ++ k :: post /\ all_respectb pre now m = true /\
+                     respectsb k now m = false /\ mw_client k now m = Reject r /\ reject_shape m r.
+Proof.
+  induction ks as [|k ks IH]; simpl; [discriminate|].
+  destruct (mw_client_cases k now m) as [[E R]|[r' [E [R S]]]]; rewrite E.
+  - intro F. destruct (IH F) as [pre [k' [post [-> [A [B [C D]]]]]]].
+    exists (k :: pre), k', post. simpl. rewrite R. auto.
+  - intro F. inversion F; subst. exists [], k, ks. simpl. auto.
+Qed.
+
+Lemma all_respectb_spec ks now m : all_respectb ks now m = true <-> Forall (fun k => respects k now m) ks.
+Proof.
+  unfold all_respectb. rewrite forallb_forall, Forall_forall.
+  split; intros H k Hin; apply respectsb_spec; auto.
+Qed.
+
+(** [stack_conj]: a stack of limit middlewares forwards [m] — unchanged, with
+    nothing sent to the client — exactly when every member's limit is
+    respected; otherwise nothing is forwarded and the client receives exactly
+    the reply of the outermost member whose limit is violated. *)
+Theorem stack_conj now ks m :
+  Forall (fun k => stateless k = true) ks ->
+  (stack_client now (stack_init ks) m = (stack_init ks, Some m, []) <->
+   Forall (fun k => respects k now m) ks) /\
+  (~ Forall (fun k => respects k now m) ks ->
+   exists pre k post r,
+     ks = pre ++ k :: post /\ Forall (fun k => respects k now m) pre /\ ~ respects k now m /\
+     mw_client k now m = Reject r /\ reject_shape m r /\
+     stack_client now (stack_init ks) m = (stack_init ks, None, [r])).
+Proof.
+  intro St. rewrite (stack_stateless_step now ks m St). rewrite <- all_respectb_spec. split.
+  - destruct (all_respectb ks now m) eqn:A.
+    + apply first_reject_none in A. rewrite A. split; reflexivity.
+    + split; [intro H; inversion H | discriminate].
+  - intro N. destruct (all_respectb ks now m) eqn:A; [exfalso; now apply N|].
+    destruct (first_reject ks now m) as [r|] eqn:F.
+    + destruct (first_reject_some _ _ _ _ F) as [pre [k [post [E [P [Q [R S]]]]]]].
+      exists pre, k, post, r. repeat split; auto.
+      * now apply all_respectb_spec.
+      * rewrite <- respectsb_spec. congruence.
+    + apply first_reject_none in F. congruence.
+Qed.
+
+(** what a stack of limit middlewares shows for one operation *)
+Definition stateless_obs (ks : list mwk) (now : Z) (o : op) : obs :=
+  match o with
+  | OClient m => ((if all_respectb ks now m then [m] else []), opt_list (first_reject ks now m))
+  | OServer s => ([], [s])
+  end.
+
+(** over every history: the messages reaching the wrapped handler are the
+    respected client messages in their order, every other client message is
+    answered once, server messages pass unchanged and in order *)
+Theorem stack_stateless_run now ks h :
+  Forall (fun k => stateless k = true) ks ->
+  sess_run now (stack_init ks) h = (stack_init ks, List.map (stateless_obs ks now) h).
+Proof.
+  intro St. induction h as [|o h IH]; [reflexivity|].
+  cbn [sess_run List.map]. destruct o as [m|s]; cbn [sess_step stateless_obs].
+  - rewrite (stack_stateless_step now ks m St). rewrite IH.
+    destruct (all_respectb ks now m); reflexivity.
+  - rewrite (stack_server_stateless ks s St). rewrite IH. reflexivity.
+Qed.
+
+Corollary stack_forwarded_in_order now ks ms :
+  Forall (fun k => stateless k = true) ks ->
+  List.concat (List.map fst (snd (sess_run now (stack_init ks) (List.map OClient ms)))) =
+  filter (all_respectb ks now) ms.
+Proof.
+  intro St. rewrite (stack_stateless_run now ks _ St). cbn [snd].
+  induction ms as [|m ms IH]; [reflexivity|]. simpl.
+  destruct (all_respectb ks now m); simpl; now rewrite IH.
+Qed.
+
+(* ------------------------------------------------------------------ *)
+(** ** BuildMiddlewareFromNIP11 *)
+
+(** one entry of the chain whose condition is [v != 0] *)
+Lemma chain_step l fld ctor cond rest acc v k :
+  lim_field fld l = Some v ->
+  (forall x, cond x = negb (x =? 0)) ->
+  (v <> 0 -> ctor_mw ctor v = Some (Some k)) ->
+  chain_build l ((fld, ctor, cond) :: rest) acc = chain_build l rest (nz v k ++ acc).
+Proof.
+  intros F C K. cbn [chain_build]. rewrite F, C. unfold nz.
+  destruct (v =? 0) eqn:E; cbn [negb app]; [reflexivity|].
+  apply Z.eqb_neq in E. now rewrite (K E).
+Qed.
+
+Lemma ctor_max_subs v : 0 <= v -> v <> 0 -> ctor_mw (txt "NewMaxSubscriptionsMiddleware") v = Some (Some (MaxSubs v)).
+Proof.
+  intros H N. assert (E : g_mw_ctor_bad_max_subs v = false) by (apply g_mw_ctor_bad_max_subs_ok; lia).
+  cbv [ctor_mw]. cbn. now rewrite E.
+Qed.
+Lemma ctor_max_filters v : 0 <= v -> v <> 0 -> ctor_mw (txt "NewMaxReqFiltersMiddleware") v = Some (Some (MaxFilters v)).
+Proof.
+  intros H N. assert (E : g_mw_ctor_bad_max_filters v = false) by (apply g_mw_ctor_bad_max_filters_ok; lia).
+  cbv [ctor_mw]. cbn. now rewrite E.
+Qed.
+Lemma ctor_max_limit v : 0 <= v -> v <> 0 -> ctor_mw (txt "NewMaxLimitMiddleware") v = Some (Some (MaxLimit v)).
+Proof.
+  intros H N. assert (E : g_mw_ctor_bad_max_limit v = false) by (apply g_mw_ctor_bad_max_limit_ok; lia).
+  cbv [ctor_mw]. cbn. now rewrite E.
+Qed.
+Lemma ctor_max_event_tags v : 0 <= v -> v <> 0 -> ctor_mw (txt "NewMaxEventTagsMiddleware") v = Some (Some (MaxEventTags v)).
+Proof.
+  intros H N. assert (E : g_mw_ctor_bad_max_event_tags v = false) by (apply g_mw_ctor_bad_max_event_tags_ok; lia).
+  cbv [ctor_mw]. cbn. now rewrite E.
+Qed.
+Lemma ctor_max_content v : 0 <= v -> v <> 0 -> ctor_mw (txt "NewMaxContentLengthMiddleware") v = Some (Some (MaxContentLen v)).
+Proof.
+  intros H N. assert (E : g_mw_ctor_bad_max_content v = false) by (apply g_mw_ctor_bad_max_content_ok; lia).
+  cbv [ctor_mw]. cbn. now rewrite E.
+Qed.
+Lemma ctor_lower v : ctor_mw (txt "NewCreatedAtLowerLimitMiddleware") v = Some (Some (CreatedLower v)).
+Proof. reflexivity. Qed.
+Lemma ctor_upper v : ctor_mw (txt "NewCreatedAtUpperLimitMiddleware") v = Some (Some (CreatedUpper v)).
+Proof. reflexivity. Qed.
+
+(** the chain of a document with a limitation block is the stack of its
+    non-zero limits (counts in range) *)
+Theorem nip11_chain_equiv l : lim_nonneg l -> build_nip11 (DocLim l) = BStack (nip11_limits l).
+Proof.
+  intros (H1 & H2 & H3 & H4 & H5).
+  unfold build_nip11. rewrite g_nip11_outer_present, g_nip11_inner_present.
+  pose proof g_nip11_chain_names as N. pose proof g_nip11_chain_conds as C.
+  destruct g_nip11_chain as [|[[f1 c1] d1] [|[[f2 c2] d2] [|[[f3 c3] d3] [|[[f4 c4] d4] [|[[f5 c5] d5]
+    [|[[f6 c6] d6] [|[[f7 c7] d7] [|? ?]]]]]]]]; try discriminate N.
+  cbn [List.map fst snd] in N. inversion N; subst; clear N.
+  repeat match goal with H : Forall _ (_ :: _) |- _ => inversion H; subst; clear H end.
+  cbn [snd] in *.
+  rewrite (chain_step l _ _ _ _ _ (l_max_subs l) (MaxSubs (l_max_subs l))); auto using ctor_max_subs.
+  rewrite (chain_step l _ _ _ _ _ (l_max_filters l) (MaxFilters (l_max_filters l))); auto using ctor_max_filters.
+  rewrite (chain_step l _ _ _ _ _ (l_max_limit l) (MaxLimit (l_max_limit l))); auto using ctor_max_limit.
+  rewrite (chain_step l _ _ _ _ _ (l_max_event_tags l) (MaxEventTags (l_max_event_tags l))); auto using ctor_max_event_tags.
+  rewrite (chain_step l _ _ _ _ _ (l_max_content l) (MaxContentLen (l_max_content l))); auto using ctor_max_content.
+  rewrite (chain_step l _ _ _ _ _ (l_lower l) (CreatedLower (l_lower l))); auto using ctor_lower.
+  rewrite (chain_step l _ _ _ _ _ (l_upper l) (CreatedUpper (l_upper l))); auto using ctor_upper.
+  cbn [chain_build]. unfold nip11_limits. now rewrite app_nil_r.
+Qed.
+
+(** a nil document: the identity *)
+Theorem nip11_nil_identity : build_nip11 DocNil = BStack [].
+Proof. unfold build_nip11. now rewrite g_nip11_outer_nil. Qed.
+
+(** a limitation block that sets nothing: the identity *)
+Theorem nip11_all_zero_identity : build_nip11 (DocLim zero_lim) = BStack [].
+Proof.
+  assert (H : lim_nonneg zero_lim) by (unfold lim_nonneg, zero_lim; simpl; lia).
+  now rewrite (nip11_chain_equiv _ H).
+Qed.
+
+(** and the empty stack is the identity middleware *)
+Theorem empty_stack_identity now h :
+  sess_run now (stack_init []) h =
+  (stack_init [], List.map (fun o => match o with OClient m => ([m], []) | OServer s => ([], [s]) end) h).
+Proof.
+  rewrite stack_stateless_run by constructor. f_equal; try (apply map_ext; intros [m|s]; reflexivity).
+Qed.
+
+(** a document without limitation block is the identity as soon as one of
+    the generated guards covers it ... *)
+Theorem nip11_no_limitation_identity_guarded :
+  g_nip11_outer_identity false true || g_nip11_inner_identity false true = true ->
+  build_nip11 DocNoLim = BStack [].
+Proof.
+  unfold build_nip11. intro H. apply orb_true_iff in H as [-> | H]; [reflexivity|].
+  rewrite H. now destruct (g_nip11_outer_identity false true).
+Qed.
+
+(** ... which the current source does not do: with [Limitation == nil] the
+    returned middleware dereferences the nil pointer when it is applied
+    (defect F4).  The statement "no limitation block => identity" is refuted. *)
+Theorem nip11_no_limitation_identity_refuted :
+  exists d, no_limitation_block d /\ build_nip11 d = BPanic.
+Proof. exists DocNoLim. split; [exact I | reflexivity]. Qed.
+
+(* AFTER THE FIX (a nil guard for the limitation block, in either position
+   read by the translator) the generated guard changes, the theorem above
+   becomes false and is to be replaced by the full statement:
+
+Theorem nip11_no_limitation_identity :
+  forall d, no_limitation_block d -> build_nip11 d = BStack [].
+Proof.
+  intros [| |l] H; [apply nip11_nil_identity | apply nip11_no_limitation_identity_guarded; reflexivity | destruct H].
+Qed.
+*)
+
+(** out of range: a negative count makes the constructor panic when the
+    middleware is applied *)
+Example nip11_negative_count_panics : build_nip11 (DocLim (mkLim 2 (-1) 0 0 0 0 0 0)) = BPanic.
+Proof. reflexivity. Qed.
